@@ -151,6 +151,8 @@ class Ctx:
         self.steps = 0
         self.forks = 0
         self.nofork = False
+        self.merge_mode = 0
+        self.guards = []
         self._index_ids = set()
         self.call_stack = []
         self.sums = []  # (prefix-sum function, series, length term)
@@ -367,6 +369,7 @@ class Interp:
         self.ctx = ctx
         del ops.POW_TERMS[:]
         ops.ENTAILS[0] = ctx.entails
+        ops.NP_FLOATS[0] = False
 
     def module_relpath(self, modname):
         rel = modname.replace(".", "/") + ".py"
@@ -635,13 +638,173 @@ class Interp:
             self.exec_block(st.orelse, env)
             return
         c = self.truth(self.eval(st.test, env))
+        if not isinstance(c, bool) and self.ctx.merge_mode and self.mergeable(st):
+            c = simp(c)
+            if not isinstance(c, bool):
+                return self.merge_if(st, env, c)
         if self.ctx.branch(c):
             self.exec_block(st.body, env)
         else:
             self.exec_block(st.orelse, env)
 
+    # ---- state merging of simple conditionals (inside summarised loop bodies) ----------------------
+
+    def mergeable(self, st):
+        """Both arms only assign local names, append to lists, assert, or nest further simple ifs."""
+        def ok_block(stmts):
+            for s in stmts:
+                if isinstance(s, ast.Pass):
+                    continue
+                if isinstance(s, ast.Assign):
+                    if all(isinstance(t, ast.Name) or (isinstance(t, (ast.Tuple, ast.List)) and all(isinstance(e, ast.Name) for e in t.elts)) for t in s.targets):
+                        continue
+                    return False
+                if isinstance(s, ast.AugAssign) and isinstance(s.target, ast.Name):
+                    continue
+                if isinstance(s, ast.AnnAssign) and isinstance(s.target, ast.Name):
+                    continue
+                if isinstance(s, ast.Expr):
+                    v = s.value
+                    if isinstance(v, ast.Constant):
+                        continue
+                    if isinstance(v, ast.Call) and isinstance(v.func, ast.Attribute) and v.func.attr == "append":
+                        continue
+                    if isinstance(v, ast.Call) and isinstance(v.func, ast.Name) and v.func.id == "print":
+                        continue
+                    return False
+                if isinstance(s, ast.Assert):
+                    continue
+                if isinstance(s, ast.If):
+                    if ok_block(s.body) and ok_block(s.orelse):
+                        continue
+                    return False
+                return False
+            return True
+        return ok_block(st.body) and ok_block(st.orelse)
+
+    def _visible_lists(self, env):
+        out = {}
+        e = env
+        while e is not None:
+            for v in e.vars.values():
+                if isinstance(v, list):
+                    out[id(v)] = v
+                elif isinstance(v, Obj):
+                    for x in v.attrs.values():
+                        if isinstance(x, list):
+                            out[id(x)] = x
+            e = e.parent
+        return out
+
+    def merge_if(self, st, env, c):
+        """Execute both arms and merge the states with if-then-else terms; if the states cannot be merged
+        (non-scalar values differ) everything the arms did is rolled back and the path forks instead."""
+        ctx = self.ctx
+        lists = self._visible_lists(env)
+        lens = {i: len(v) for i, v in lists.items()}
+        snap = dict(env.vars)
+        s = ctx._solver()
+        s.push()
+        saved = (len(ctx.facts), len(ctx.pc), len(ctx.obligations), len(ctx.quantified), len(ctx.sums),
+                 ctx._nf, ctx._np, ctx._npow, ctx._ninst, len(ops.POW_TERMS), ctx.pos, len(ctx.decisions), ctx.forks,
+                 len(ctx.pending))
+        try:
+            self._merge_if(st, env, c, lists, lens, snap)
+            # keep the solver stack balanced: re-assert what the arms added at the outer level
+            s.pop()
+            ctx._nf, ctx._np, ctx._npow, ctx._ninst = saved[5:9]
+            return
+        except Unsupported as e:
+            if "cannot merge" not in str(e) and "different numbers" not in str(e):
+                raise
+        s.pop()
+        del ctx.facts[saved[0]:], ctx.pc[saved[1]:], ctx.obligations[saved[2]:], ctx.quantified[saved[3]:], ctx.sums[saved[4]:]
+        ctx._nf, ctx._np, ctx._npow, ctx._ninst = saved[5:9]
+        del ops.POW_TERMS[saved[9]:]
+        if ctx.pos != saved[10] or len(ctx.decisions) != saved[11]:
+            del ctx.decisions[saved[11]:]
+            ctx.pos = saved[10]
+            ctx.forks = saved[12]
+            del ctx.pending[saved[13]:]
+        ctx.__dict__.pop("_inst_sig", None)
+        env.vars = snap
+        for i, v in lists.items():
+            del v[lens[i]:]
+        if ctx.branch(c):
+            self.exec_block(st.body, env)
+        else:
+            self.exec_block(st.orelse, env)
+
+    def _merge_if(self, st, env, c, lists, lens, snap):
+        ctx = self.ctx
+        results = []
+        for guard, block in ((c, st.body), (ops.s_not(c), st.orelse)):
+            env.vars = dict(snap)
+            ctx.guards.append(guard)
+            try:
+                self.exec_block(block, env)
+            finally:
+                ctx.guards.pop()
+            tails = {}
+            for i, v in lists.items():
+                if len(v) < lens[i]:
+                    raise Unsupported("merged branch removed list elements")
+                tails[i] = v[lens[i]:]
+                del v[lens[i]:]
+            results.append((env.vars, tails))
+        (v1, t1), (v2, t2) = results
+        merged = dict(snap)
+        for name in set(v1) | set(v2):
+            a = v1.get(name, _MISSING)
+            b = v2.get(name, _MISSING)
+            if a is b:
+                merged[name] = a
+                continue
+            if a is _MISSING or b is _MISSING:
+                merged[name] = Opaque(f"'{name}' assigned in only one arm of a merged conditional")
+                continue
+            merged[name] = self.merge_values(c, a, b, name)
+        env.vars = merged
+        for i, v in lists.items():
+            a, b = t1[i], t2[i]
+            if len(a) != len(b):
+                raise Unsupported("arms of a merged conditional append different numbers of elements")
+            v.extend(self.merge_values(c, x, y, "appended element") for x, y in zip(a, b))
+
+    def merge_values(self, c, a, b, what):
+        if a is b:
+            return a
+        try:
+            if (is_number(a) or isinstance(a, bool) or (isinstance(a, Sym))) and (is_number(b) or isinstance(b, bool) or isinstance(b, Sym)):
+                return ops.ite(c, a, b)
+            if isinstance(a, str) and isinstance(b, str) and a == b:
+                return a
+        except Unsupported:
+            pass
+        raise Unsupported(f"cannot merge {what} of a conditional: {repr(a)[:80]} / {repr(b)[:80]}")
+
     def st_Assert(self, st, env):
         c = self.truth(self.eval(st.test, env))
+        if self.ctx.merge_mode and not isinstance(c, bool):
+            # inside a summarised loop body an assertion cannot end the path for one index only: it becomes
+            # an obligation at the arbitrary index (guards -> condition), then a fact
+            g = [ops.as_bool_term(x) for x in self.ctx.guards]
+            goal = z3.Implies(z3.And(g), ops.as_bool_term(c)) if g else ops.as_bool_term(c)
+            fn = env.func._qualname if env.func is not None else "<module>"
+            k = env.func._assert_ordinal(st) if env.func is not None else 0
+            if self.ctx.entails(goal):
+                return
+            if not self.ctx.nofork:
+                self.ctx.check(f"assert_holds[{fn}#{k}]", goal)
+            self.ctx.facts.append(goal)
+            return
+        if self.ctx.merge_mode and c is False and self.ctx.guards:
+            g = [ops.as_bool_term(x) for x in self.ctx.guards]
+            fn = env.func._qualname if env.func is not None else "<module>"
+            k = env.func._assert_ordinal(st) if env.func is not None else 0
+            self.ctx.check(f"assert_holds[{fn}#{k}]", z3.Not(z3.And(g)))
+            self.ctx.facts.append(z3.Not(z3.And(g)))
+            return
         if self.ctx.branch(c):
             return
         msg = ()
@@ -915,6 +1078,12 @@ class Interp:
         c = self.truth(self.eval(e.test, env))
         if isinstance(c, bool):
             return self.eval(e.body if c else e.orelse, env)
+        if self.ctx.merge_mode and _is_pure(e.body) and _is_pure(e.orelse):
+            a, b = self.eval(e.body, env), self.eval(e.orelse, env)
+            try:
+                return self.merge_values(c, a, b, "conditional expression")
+            except Unsupported:
+                pass
         if self.ctx.branch(c):
             return self.eval(e.body, env)
         return self.eval(e.orelse, env)
@@ -1010,11 +1179,22 @@ class Interp:
 
     def check_div(self, b):
         """Python raises ZeroDivisionError on a zero scalar divisor: fork unless excluded."""
+        if getattr(self.ctx, "np_floats", False):
+            return  # numpy scalars: no exception; x/0 stays an arbitrary value (nan/inf natively)
         if isinstance(b, Sym) and b.kind in ("int", "float"):
             z = simp(Sym(b.t == 0, "bool"))
             if isinstance(z, bool):
                 if z:
                     raise PyRaise("ZeroDivisionError", "division by zero")
+                return
+            if self.ctx.entails(z3.Not(z.t)):
+                return
+            if self.ctx.merge_mode:
+                g = [ops.as_bool_term(x) for x in self.ctx.guards]
+                goal = z3.Implies(z3.And(g), z3.Not(z.t)) if g else z3.Not(z.t)
+                if not self.ctx.nofork:
+                    self.ctx.check("no_division_by_zero_in_loop_body", goal)
+                self.ctx.facts.append(goal)
                 return
             if self.ctx.branch(z):
                 raise PyRaise("ZeroDivisionError", "division by zero")
@@ -1573,6 +1753,10 @@ class Interp:
             loops.sort(key=lambda n: (n.lineno, n.col_offset))
             ids = {id(n): k for k, n in enumerate(loops)}
             fv._loop_ordinal = lambda node, ids=ids: ids.get(id(node))
+            asserts = [n for n in ast.walk(fv.node) if isinstance(n, ast.Assert)]
+            asserts.sort(key=lambda n: (n.lineno, n.col_offset))
+            aids = {id(n): k for k, n in enumerate(asserts)}
+            fv._assert_ordinal = lambda node, aids=aids: aids.get(id(node))
             fv._relpath = fv.module.path if isinstance(fv.module, ModuleVal) else None
             fv._qualname = (fv.owner.name + "." if fv.owner is not None else "") + fv.name
         return fv
@@ -1633,6 +1817,9 @@ class Interp:
         elif kwargs:
             raise PyExc(ExcVal("TypeError", (f"{fv.name}() got an unexpected keyword argument '{next(iter(kwargs))}'",)))
         env.vars.update(vals)
+
+
+_MISSING = object()
 
 
 class SuperVal:
